@@ -1,4 +1,6 @@
 import BeyondVerif.Model.NodeSpec
+import BeyondVerif.Model.Registry
+import BeyondVerif.Generated.RegSites
 /-!
 Counter-witness for the clause "a shortest chain in general" of C20: on a 5-ring the
 incremental tables of the *model* (which the correspondence shows to be those of the code)
@@ -15,6 +17,47 @@ theorem pentagon_not_shortest :
     ∃ g, build 7 pentagon = some g ∧ path 7 g 2 3 = .ok [2, 0, 1, 3] ∧
       linkedB pentagon 2 4 = true ∧ linkedB pentagon 4 3 = true := by
   refine ⟨_, rfl, ?_⟩
+  decide
+
+/-! ## registry layer: where the link method is stored matters
+
+`convert_resolves` (Props/C20Registry.lean) needs every executed site to store the method of each link it inserts
+on the BASE class (`registersRoot`).  Outside that hypothesis a connected pair is reported `Unknown transformation`.
+-/
+open BeyondVerif.Reg
+
+/-- objects 0 (class 0 = base), 1 (class 2 ⊂ 0), 2 (class 1 ⊂ 0); every node its own name -/
+def world3 : World where
+  nm := fun i => i
+  cls := fun i => [0, 2, 1].getD i 0
+  mro := fun c => if c = 0 then [0] else [c, 0]
+
+/-- **known finding C20-topocentric-ctor-instance-only.**  The constructor `TopocentricOrientation.__init__` of the
+current source (site regenerated from the AST) stores `<station>_to_<parent>` in the instance dict of the new
+object only: after `TopocentricOrientation("2", …, parent=0)` the two nodes are linked and routed, the station
+converts to its parent, but from the parent (and from everywhere else) `convert_to` raises
+`Unknown transformation 0 <-> 2`.  `create_station` repairs this by a second registration on `Orientation`. -/
+theorem topo_ctor_alone_unresolvable :
+    registersRoot BeyondVerif.Generated.siteTopocentricOrientationCtor = false ∧
+    ∃ st, runSites world3 0 6 {} [(BeyondVerif.Generated.siteTopocentricOrientationCtor, ⟨2, 0, 0⟩)] = some st ∧
+      Reg.path world3.nm 6 st.g 0 2 = .ok [0, 2] ∧
+      convert world3 6 st 0 2 = .unknownTransformation 0 2 ∧
+      convert world3 6 st 2 0 = .ok [⟨2, 0, true, some 2⟩] := by
+  refine ⟨by decide, _, rfl, ?_⟩
+  decide
+
+/-- a site that stores the method on `type(parent)`: fine when the parent is a plain base-class object, but below a
+parent of a SUBCLASS (object 1, class 2) the method is invisible from base-class objects: 0 — 1 — 2 are linked and
+routed, yet `0 → 2` raises `Unknown transformation 1 <-> 2` while `1 → 2` resolves. -/
+def siteTypeOfParent : List SiteOp := [.setattr (.typeOf .parent) .self .parent .self, .link .parent .self]
+
+theorem subclass_registration_unresolvable :
+    registersRoot siteTypeOfParent = false ∧
+    ∃ st, runSites world3 0 6 {} [(BeyondVerif.Generated.siteLagrangeOrientCtor, ⟨1, 0, 0⟩), (siteTypeOfParent, ⟨2, 1, 0⟩)] = some st ∧
+      Reg.path world3.nm 6 st.g 0 2 = .ok [0, 1, 2] ∧
+      convert world3 6 st 0 2 = .unknownTransformation 1 2 ∧
+      convert world3 6 st 1 2 = .ok [⟨1, 2, false, some 2⟩] := by
+  refine ⟨by decide, _, rfl, ?_⟩
   decide
 
 end BeyondVerif.C20W
